@@ -157,7 +157,7 @@ int main(void)
 	for (i = 0; i < N; i++) {
 		IN_I(UINT32, in_recv, i); IN_I(UINT32, in_recv2, i); IN_I(UINT32, in_cb_null, i);
 		REQUIRES(in_recv[i] <= 1 && in_recv2[i] <= 1 && in_cb_null[i] <= 1);
-		for (j = 0; j < L; j++) { IN_I(UINT8, in_bytes[i], j); appbuf[i][j] = in_bytes[i][j]; }
+		for (j = 0; j < L; j++) { IN_IJ(UINT8, in_bytes, i, j); appbuf[i][j] = in_bytes[i][j]; }
 		if (i < n)
 			cb->available_symbols_tab[i] = in_recv[i] ? (void *)appbuf[i] : NULL;
 	}
